@@ -196,3 +196,13 @@ CHECKS = {
         "assumptions": [],
     },
 }
+
+
+# ---------------------------------------------------------------- plug-in checks
+# bin/checks_cXX.py files define CHECK (same shape as the entries above) for one property.
+import glob, importlib.util
+for _f in sorted(glob.glob(os.path.join(os.path.dirname(os.path.abspath(__file__)), "checks_c*.py"))):
+    _spec = importlib.util.spec_from_file_location(os.path.basename(_f)[:-3], _f)
+    _m = importlib.util.module_from_spec(_spec)
+    _spec.loader.exec_module(_m)
+    CHECKS[_m.PROPERTY] = _m.CHECK
